@@ -1,4 +1,4 @@
-import AcraModel.Proxy.Session
+import AcraModel.Proxy.MySQL
 import AcraModel.Crypto.Shim
 import Driver.C01
 /-!
@@ -8,8 +8,10 @@ Driver ops for C04 (the SQL proxy). Token formats (no spaces inside a token):
             (kind = struct|block, dtype = none|bytes|str, reenc = 0|1)
 * cell    : `L<hex>` string literal, `N<hex>` number, `P<n>` placeholder, `Z` NULL, `O<n>` other
 * targets : `*`, `q.*`, `c`, `q.c`, `?` joined by `,`; `_` = none
-* stmt    : `I:table:cols:rows:returning` (rows joined by `;`, cells by `,`) | `U:table:alias:sets:returning`
-            (sets = `col=cell` joined by `,`) | `S:table:alias:items` | `X`
+* stmt    : `I:table:cols:rows:returning[:ondup:src]` (rows joined by `;`, cells by `,`; ondup = sets of
+            ON CONFLICT DO UPDATE / ON DUPLICATE KEY UPDATE, src = `V` VALUES | `S` SELECT <rows[0]>) |
+            `U:table:alias:sets:returning[:M]` (sets = `col=cell` joined by `,`; `M` = `SET (a, b) = (x, y)`) |
+            `S:table:alias:items` | `X`
 * params  : `t<hex>` / `b<hex>` text / binary value, `tZ` / `bZ` NULL, joined by `,`; `_` = none
 -/
 namespace Driver.C04
@@ -76,27 +78,39 @@ def showList (l : List String) (sep : String) : String := if l.isEmpty then "_" 
 
 def parseAlias (s : String) : Option Name := if s = "_" then none else some s
 
+def parseSets (sets : String) : Option (List (Name × Cell)) :=
+  (splitList sets ",").mapM fun x =>
+    match x.splitOn "=" with
+    | [c, v] => (parseCell v).map fun v => (c, v)
+    | _ => none
+
 def parseStmt (s : String) : Option Stmt :=
   match s.splitOn ":" with
   | ["I", t, cols, rows, ret] => do
     let rs ← (splitList rows ";").mapM fun r => (splitList r ",").mapM parseCell
     pure (.insert { table := t, cols := splitList cols ",", rows := rs, returning := ← parseTargets ret })
+  | ["I", t, cols, rows, ret, ondup, src] => do
+    let rs ← (splitList rows ";").mapM fun r => (splitList r ",").mapM parseCell
+    pure (.insert { table := t, cols := splitList cols ",", rows := rs, returning := ← parseTargets ret,
+                    onDup := ← parseSets ondup, fromSelect := src == "S" })
   | ["U", t, al, sets, ret] => do
-    let ss ← (splitList sets ",").mapM fun x =>
-      match x.splitOn "=" with
-      | [c, v] => (parseCell v).map fun v => (c, v)
-      | _ => none
-    pure (.update { table := t, alias := parseAlias al, sets := ss, returning := ← parseTargets ret })
+    pure (.update { table := t, alias := parseAlias al, sets := ← parseSets sets, returning := ← parseTargets ret })
+  | ["U", t, al, sets, ret, "M"] => do
+    pure (.update { table := t, alias := parseAlias al, sets := ← parseSets sets, returning := ← parseTargets ret, multi := true })
   | ["S", t, al, items] => do
     pure (.select { table := t, alias := parseAlias al, items := ← parseTargets items })
   | ["X"] => some (.other 0)
   | _ => none
 
+def showSets (l : List (Name × Cell)) : String := showList (l.map fun (c, v) => c ++ "=" ++ showCell v) ","
+
 def showStmt : Stmt → String
   | .insert i =>
-    "I:" ++ i.table ++ ":" ++ showList i.cols "," ++ ":" ++ showList (i.rows.map fun r => showList (r.map showCell) ",") ";" ++ ":" ++ showList (i.returning.map showTarget) ","
+    "I:" ++ i.table ++ ":" ++ showList i.cols "," ++ ":" ++ showList (i.rows.map fun r => showList (r.map showCell) ",") ";" ++ ":" ++ showList (i.returning.map showTarget) "," ++
+      (if i.onDup.isEmpty && !i.fromSelect then "" else ":" ++ showSets i.onDup ++ ":" ++ (if i.fromSelect then "S" else "V"))
   | .update u =>
-    "U:" ++ u.table ++ ":" ++ u.alias.getD "_" ++ ":" ++ showList (u.sets.map fun (c, v) => c ++ "=" ++ showCell v) "," ++ ":" ++ showList (u.returning.map showTarget) ","
+    "U:" ++ u.table ++ ":" ++ u.alias.getD "_" ++ ":" ++ showSets u.sets ++ ":" ++ showList (u.returning.map showTarget) "," ++
+      (if u.multi then ":M" else "")
   | .select s => "S:" ++ s.table ++ ":" ++ s.alias.getD "_" ++ ":" ++ showList (s.items.map showTarget) ","
   | .other _ => "X"
 
@@ -127,7 +141,7 @@ def showSettings (l : List (Option ColSetting)) : String :=
         (match s.dtype with | .none => "none" | .bytes => "bytes" | .str => "str")) ","
 
 /-- events of the protocol-state ops: `q<id>` simple query, `Q<id>` censored query, `p<name>=<id>` Parse,
-`b<portal>=<stmt>` Bind, `e<portal>` Execute, `s` Sync, `o` other; database side: `D` DataRow, `C` done,
+`b<portal>=<stmt>` Bind, `e<portal>` Execute, `s` Sync, `o` other; database side: `D` DataRow, `C` done, `S` PortalSuspended,
 `E` error, `Z` ready, `O` other -/
 def showSrc : Src Nat Nat → String
   | .simple s => s!"simple{s}"
@@ -173,6 +187,8 @@ def pendingRun : PState Nat Nat → Nat → List String → List String → Opti
       let used := match rowEntry st.pending with | some q => "row:" ++ showSrc q | none => "row:none"
       pendingRun st n es (used :: acc)
     | ['C'] => let st' := { st with pending := dbStep st.pending .done }; pendingRun st' n es (showQueue st'.pending :: acc)
+    -- PortalSuspended ends a row-limited Execute like CommandComplete
+    | ['S'] => let st' := { st with pending := dbStep st.pending .done }; pendingRun st' n es (showQueue st'.pending :: acc)
     | ['E'] => let st' := { st with pending := dbStep st.pending .error }; pendingRun st' n es (showQueue st'.pending :: acc)
     | ['Z'] => let st' := { st with pending := dbStep st.pending .ready }; pendingRun st' n es (showQueue st'.pending :: acc)
     | ['O'] => pendingRun st n es (showQueue st.pending :: acc)
@@ -188,6 +204,38 @@ def handle (op : String) (args : List String) : Option String :=
   | "mystmt", [sch, pub, privs, sym, syms, st, rnd] => do
       let kv ← Driver.C01.parseKV pub privs sym syms
       pure ("ok " ++ showStmt (forwardStmtMy C kv (← parseSchema sch) (← parseStmt st) (← ofHex rnd)))
+  -- myfwd <q|p> schema [kv×4] stmt rnd → the statement as the MySQL proxy forwards it (COM_QUERY / COM_STMT_PREPARE)
+  | "myfwd", [_, sch, pub, privs, sym, syms, st, rnd] => do
+      let kv ← Driver.C01.parseKV pub privs sym syms
+      pure ("ok " ++ showStmt (forwardStmtMy C kv (← parseSchema sch) (← parseStmt st) (← ofHex rnd)))
+  -- mybind schema [kv×4] stmt <wire params> params order rnd → the parameter values the database receives
+  | "mybind", [sch, pub, privs, sym, syms, st, _, ps, order, rnd] => do
+      let kv ← Driver.C01.parseKV pub privs sym syms
+      let ord ← (splitList order ",").mapM (·.toNat?)
+      let schema ← parseSchema sch
+      let stmt ← parseStmt st
+      -- COM_STMT_PREPARE came first: its protected literals have already drawn randomness
+      let rnd0 ← ofHex rnd
+      let rnd' := match stmt with
+        | .insert i => (match xfInsertMy (encCellMy C kv) schema i rnd0 with | some (_, r) => r | none => rnd0)
+        | .update u => (match xfUpdate (encCellMy C kv) schema u rnd0 with | some (_, r) => r | none => rnd0)
+        | _ => rnd0
+      let params := (← parseParams ps).map (·.2)
+      match forwardBindMy C kv schema stmt params ord rnd' with
+      | .same => pure ("vals " ++ showList (params.map showOpt) ",")
+      | .changed vs => pure ("vals " ++ showList (vs.map showOpt) ",")
+  -- myrow schema [kv×4] stmt fmt types cols → the values of the row as the client reads them off the wire
+  | "myrow", [sch, pub, privs, sym, syms, st, fmt, types, cols] => do
+      let kv ← Driver.C01.parseKV pub privs sym syms
+      let f ← (match fmt.toList with | [c] => parseFmt c | _ => none)
+      let tys ← (splitList types ",").mapM fun x =>
+        match x with | "s" => some MyType.str | "i4" => some (MyType.int 4) | "i8" => some (MyType.int 8) | _ => none
+      let cs ← (splitList cols ",").mapM parseOptVal
+      let out := deliverRowMy C kv (← parseSchema sch) (← parseStmt st) f tys cs
+      -- strip the wire framing the way a client does
+      let strip (vs : List (Option Bytes)) : List (Option Bytes) :=
+        vs.zipIdx.map fun (v, i) => v.bind fun w => clientValueMy f ((tys[i]?).getD .str) w
+      pure (out.render fun vs => showList ((strip vs).map showOpt) ",")
   -- bind schema [kv×4] stmt params order rnd → same | changed <values>
   | "bind", [sch, pub, privs, sym, syms, st, ps, order, rnd] => do
       let kv ← Driver.C01.parseKV pub privs sym syms
